@@ -313,6 +313,8 @@ def run_sim_class(chk, cls, scs, mons, variant=None, batch=250, tag=None):
             sc["late_config"] = True           # configuration objects filled in AFTER they were handed to handler / builder
         if "nodes_first" not in sc and k % 4 == 3:
             sc["nodes_first"] = True           # builder.add_node(...) for every node BEFORE the handlers are added
+        if "poll_inside" not in sc and k % 6 == 3:
+            sc["poll_inside"] = True           # is_simulation_done() asked from inside the callbacks (a read-only query)
         if "interloper" not in sc and k % 5 == 4:
             sc["interloper"] = True            # an unrelated simulation is built and run from inside the 2nd and 5th callback
         if "truthy_preds" not in sc and k % 2 == 1:
@@ -380,7 +382,7 @@ def run_sim_class(chk, cls, scs, mons, variant=None, batch=250, tag=None):
 
 def _brief(sc):
     d = {k: sc[k] for k in ("handlers", "nodes", "med", "mob", "asserts", "seed", "dur", "maxit", "drv", "script")}
-    for k in ("reuse_commands", "fresh_controllers", "odd_names", "truthy_preds", "build_twice", "poll_done", "int_numbers", "enum_names", "raw_commands", "rerun", "late_config", "nodes_first", "interloper", "variant", "stream"):
+    for k in ("reuse_commands", "fresh_controllers", "odd_names", "truthy_preds", "build_twice", "poll_done", "int_numbers", "enum_names", "raw_commands", "rerun", "late_config", "nodes_first", "interloper", "poll_inside", "variant", "stream"):
         if k in sc:
             d[k] = sc[k]
     return d
@@ -938,6 +940,14 @@ def check_C06(chk, R, S):
         lossy = [sc for sc in scs if 0.0 < sc["med"][2] < 1.0 and "C" in sc["handlers"]]
         rest = [sc for sc in scs if sc not in lossy]
         subproc_matrix.run(chk, (lossy + rest)[:12], R, light=True)
+        # scenarios with three user-defined (recording) handlers, whose hooks and same-instant events have an order: under
+        # six hash seeds (3! orders of the labels)
+        multi = []
+        for sc in rest[:12]:
+            c = copy.deepcopy(sc)
+            c["handlers"] = [h for h in c["handlers"] if not h.startswith("R")] + ["R0", "R1", "R2"]
+            multi.append(c)
+        subproc_matrix.run(chk, multi[:6], R, light=True, hashseeds=("1", "2", "3", "4", "5", "6", "7"))
 
 
 def gen_drive_scenario(R, kinds=("settimer", "settimer", "cancel", "send")):
@@ -1744,6 +1754,8 @@ def gen_disp_case(R, maxops=10, nested=False):
     case = {"ninst": ninst, "beh": beh, "ops": ops}
     if R.random() < 0.4:
         case["bound"] = True               # handlers are bound methods, looked up anew for every (un)registration
+    if R.random() < 0.35:
+        case["shape"] = R.choice(["decorated", "aliased"])    # how the protocol class defines its callbacks
     if R.random() < 0.5:
         # protocol instances inside a real simulation, callbacks delivered through the node's encapsulator; the
         # dispatcher is typically first asked for in the middle of the run (after some callbacks were delivered)
@@ -1873,6 +1885,7 @@ def gen_mission_case(R, maxops=14):
     case = {"speed": R.choice([5.0, 1.0, 12.5]), "mode": mode, "tol": tol, "ops": ops}
     if R.random() < 0.3:
         case["via_file"] = True          # missions handed over through start_mission_with_waypoint_file
+        case["file_fmt"] = R.choice(["r", "r", "e", "sp", "plus"])     # the same numbers written in exponent form, padded, signed
     if R.random() < 0.3:
         case["decoy"] = True             # the protocol owns a second, idle mission plugin created after this one
     if R.random() < 0.3:
@@ -2087,6 +2100,8 @@ def check_C20(chk, R, S):
     cases = [item["case"] for item in corpus("C20")]
     cases += [G.gen_geo_case(R) for _ in range(S["sims"] * 4)]
     run_plugin_class(chk, "geo-points", cases, G.run_geo_impl, G.geo_to_text, G.mon_C20, guard=False)
+    run_plugin_class(chk, "geo-points-at-the-seams", [G.gen_geo_seam_case(R) for _ in range(S["sims"])], G.run_geo_impl, G.geo_to_text,
+                     G.mon_C20, guard=False)
     # goto-geo == goto(converted), through the mobility handler
     from gradysim.protocol.position import geo_to_cartesian
     scs_geo, scs_xyz = [], []
